@@ -24,6 +24,8 @@ PROP = Prop(
     'C03', 'Every supported training password is reproduced by the trained grammar',
     functions=[
         # trainer: the segments tile the password and every segment is tallied under its label (C05's contracts)
+        # the stored word is the lower-cased segment and its mask marks exactly the capitals, word by word in a multi-word (C05's contract)
+        (td.DR + 'alpha_detection:detect_alpha', install_trainer),
         (td.PP + '.parse', install_trainer), (td.PP + '._update_counter_len_indexed', install_trainer), (td.BS + ':base_structure_creation', install_trainer),
         # every counted item is written once with count/total (C06's contracts)
         (tio.CP + ':calculate_probabilities', install_trainer), (tio.SP + ':calculate_and_save_counter', install_trainer),
@@ -32,7 +34,7 @@ PROP = Prop(
         # every concatenation of one value per group is emitted, masks applied to the word before them; every pre-terminal is reached
         (M + '_recursive_guesses', ge.install), (M + '_are_you_my_child', None), (M + 'find_children', None),
     ],
-    lemmas=lambda: ge.catvals_split.lemmas() + gld.groups_desc.lemmas() + gld.firstm_stable.lemmas() + gl.all_c02_lemmas(),
+    lemmas=lambda: td.a_first_stable.lemmas() + td.a_end_stable.lemmas() + ge.catvals_split.lemmas() + gld.groups_desc.lemmas() + gld.firstm_stable.lemmas() + gl.all_c02_lemmas(),
     level='other',
     replay=replay,
     bounded=[Bounded('C03.bounded.train', 'replay/train.py', args=['--fn', 'C03'],
